@@ -52,6 +52,7 @@ pub struct ADoc {
 #[derive(Clone, Debug, PartialEq, Eq)]
 pub enum MarkKind {
     /// a quoted scalar: byte offsets of the opening and closing quote
+    /// `block_key`: an implicit key limited to one line (block mapping key, or key of a single pair in a flow sequence)
     Quoted { open: usize, close: usize, single: bool, block_key: bool },
     /// a flow collection: offsets of the brackets, and the indent of the enclosing block (-1 = top)
     FlowColl { open: usize, close: usize, seq: bool, block_n: isize },
@@ -465,7 +466,7 @@ impl<'r> Renderer<'r> {
                     self.out.push(' ');
                 }
                 let ctx = self.flow_ctx(block_n, true);
-                let style = self.put_flow_scalar(t, ctx, false, !p.is_empty(), Some(pair_in_seq), false);
+                let style = self.put_flow_scalar(t, ctx, false, !p.is_empty(), Some(pair_in_seq), pair_in_seq);
                 self.ev.push(SEv::Scalar { v: t.clone(), style, aid, tag });
                 style != ScalarStyle::Plain
             }
@@ -578,7 +579,7 @@ impl<'r> Renderer<'r> {
                             self.out.push(':');
                             self.flow_value_after_colon(v, block_n, multi, false);
                         }
-                    } else if self.r.chance(1, 6) {
+                    } else if self.r.chance(1, 4) {
                         self.out.push_str("? ");
                         self.note("flow-explicit-key");
                         self.flow_node(k, block_n, false);
@@ -1057,12 +1058,15 @@ pub struct TreeGen<'a> {
     pub cfg: GenCfg,
     nodes: usize,
     closed_anchors: Vec<String>,
+    /// anchors of collections still being generated: an alias to one of them is a reference to a
+    /// node that is still open
+    open_anchors: Vec<String>,
     handles: Vec<String>,
 }
 
 impl<'a> TreeGen<'a> {
     pub fn new(r: &'a mut Rng, cfg: GenCfg) -> Self {
-        TreeGen { r, cfg, nodes: 0, closed_anchors: vec![], handles: vec![] }
+        TreeGen { r, cfg, nodes: 0, closed_anchors: vec![], open_anchors: vec![], handles: vec![] }
     }
 
     fn scalar_text(&mut self) -> String {
@@ -1120,8 +1124,31 @@ impl<'a> TreeGen<'a> {
             let placeholder = ANode { kind: AKind::Null, anchor: None, tag: None };
             let mut me = placeholder;
             self.props(&mut me);
+            if let Some(a) = &me.anchor {
+                self.open_anchors.push(a.clone());
+            }
+            if self.r.chance(1, 20) {
+                // a sequence of one-pair mappings (in flow style: `[a: b, ? c : d, e: f]`)
+                for _ in 0..self.r.range(2, 5) {
+                    let key = if self.r.chance(1, 10) {
+                        ANode { kind: AKind::Null, anchor: None, tag: None }
+                    } else {
+                        ANode { kind: AKind::Scalar(self.scalar_text()), anchor: None, tag: None }
+                    };
+                    let val = if self.r.chance(1, 4) {
+                        ANode { kind: AKind::Null, anchor: None, tag: None }
+                    } else {
+                        ANode { kind: AKind::Scalar(self.scalar_text()), anchor: None, tag: None }
+                    };
+                    self.nodes += 3;
+                    items.push(ANode { kind: AKind::Map(vec![(key, val)]), anchor: None, tag: None });
+                }
+            }
             for _ in 0..cnt {
                 items.push(self.node(depth + 1, flow_only));
+            }
+            if me.anchor.is_some() {
+                self.open_anchors.pop();
             }
             me.kind = AKind::Seq(items);
             me
@@ -1130,6 +1157,9 @@ impl<'a> TreeGen<'a> {
             let mut pairs = vec![];
             let mut me = ANode { kind: AKind::Null, anchor: None, tag: None };
             self.props(&mut me);
+            if let Some(a) = &me.anchor {
+                self.open_anchors.push(a.clone());
+            }
             for _ in 0..cnt {
                 // keys: mostly scalars
                 let key = if self.r.chance(1, 8) {
@@ -1150,8 +1180,14 @@ impl<'a> TreeGen<'a> {
                 let val = self.node(depth + 1, flow_only);
                 pairs.push((key, val));
             }
+            if me.anchor.is_some() {
+                self.open_anchors.pop();
+            }
             me.kind = AKind::Map(pairs);
             me
+        } else if k < 52 && !self.open_anchors.is_empty() && self.r.chance(1, 3) {
+            let name = self.open_anchors[self.r.below(self.open_anchors.len())].clone();
+            return ANode { kind: AKind::Alias(name), anchor: None, tag: None };
         } else if k < 52 && !self.closed_anchors.is_empty() {
             let name = self.closed_anchors[self.r.below(self.closed_anchors.len())].clone();
             return ANode { kind: AKind::Alias(name), anchor: None, tag: None };
@@ -1185,6 +1221,7 @@ impl<'a> TreeGen<'a> {
     pub fn doc(&mut self) -> ADoc {
         self.nodes = 0;
         self.closed_anchors.clear();
+        self.open_anchors.clear();
         self.handles.clear();
         let mut d = ADoc::default();
         if self.r.chance(1, 8) {
